@@ -515,11 +515,25 @@ pub(crate) fn ifndef_directive(s: Span) -> IResult<Span, IfndefDirective> {
     ))
 }
 
+// `elsif / `else / `endif end a group of lines only as whole words: `else_x is a macro usage
+fn branch_keyword<'a>(t: &'a str) -> impl FnMut(Span<'a>) -> IResult<Span<'a>, Span<'a>> {
+    move |s: Span<'a>| {
+        alt((
+            all_consuming(tag(t)),
+            terminated(tag(t), peek(none_of(AZ09_DOLLAR))),
+        ))(s)
+    }
+}
+
 #[tracable_parser]
 #[packrat_parser]
 pub(crate) fn ifdef_group_of_lines(s: Span) -> IResult<Span, IfdefGroupOfLines> {
     let (s, a) = many0(preceded(
-        peek(not(alt((tag("`elsif"), tag("`else"), tag("`endif"))))),
+        peek(not(alt((
+            branch_keyword("`elsif"),
+            branch_keyword("`else"),
+            branch_keyword("`endif"),
+        )))),
         source_description,
     ))(s)?;
     Ok((s, IfdefGroupOfLines { nodes: (a,) }))
@@ -529,7 +543,11 @@ pub(crate) fn ifdef_group_of_lines(s: Span) -> IResult<Span, IfdefGroupOfLines> 
 #[packrat_parser]
 pub(crate) fn ifndef_group_of_lines(s: Span) -> IResult<Span, IfndefGroupOfLines> {
     let (s, a) = many0(preceded(
-        peek(not(alt((tag("`elsif"), tag("`else"), tag("`endif"))))),
+        peek(not(alt((
+            branch_keyword("`elsif"),
+            branch_keyword("`else"),
+            branch_keyword("`endif"),
+        )))),
         source_description,
     ))(s)?;
     Ok((s, IfndefGroupOfLines { nodes: (a,) }))
@@ -539,7 +557,11 @@ pub(crate) fn ifndef_group_of_lines(s: Span) -> IResult<Span, IfndefGroupOfLines
 #[packrat_parser]
 pub(crate) fn elsif_group_of_lines(s: Span) -> IResult<Span, ElsifGroupOfLines> {
     let (s, a) = many0(preceded(
-        peek(not(alt((tag("`elsif"), tag("`else"), tag("`endif"))))),
+        peek(not(alt((
+            branch_keyword("`elsif"),
+            branch_keyword("`else"),
+            branch_keyword("`endif"),
+        )))),
         source_description,
     ))(s)?;
     Ok((s, ElsifGroupOfLines { nodes: (a,) }))
@@ -548,7 +570,10 @@ pub(crate) fn elsif_group_of_lines(s: Span) -> IResult<Span, ElsifGroupOfLines> 
 #[tracable_parser]
 #[packrat_parser]
 pub(crate) fn else_group_of_lines(s: Span) -> IResult<Span, ElseGroupOfLines> {
-    let (s, a) = many0(preceded(peek(not(tag("`endif"))), source_description))(s)?;
+    let (s, a) = many0(preceded(
+        peek(not(branch_keyword("`endif"))),
+        source_description,
+    ))(s)?;
     Ok((s, ElseGroupOfLines { nodes: (a,) }))
 }
 
